@@ -240,6 +240,19 @@ impl<'a> Fnt<'a> {
     }
 }
 
+fn glyph_kind(f: &Fnt, gid: u32) -> &'static str {
+    if f.format != Some(OutlineGlyphFormat::Glyf) {
+        return "cff";
+    }
+    let (Ok(loca), Ok(glyf)) = (f.font.loca(None), f.font.glyf()) else { return "unknown" };
+    match loca.get_glyf(GlyphId::new(gid), &glyf) {
+        Ok(Some(skrifa::raw::tables::glyf::Glyph::Simple(_))) => "simple",
+        Ok(Some(skrifa::raw::tables::glyf::Glyph::Composite(_))) => "composite",
+        Ok(None) => "empty",
+        Err(_) => "unreadable",
+    }
+}
+
 fn ncoords(c: &[i16]) -> Vec<NormalizedCoord> {
     c.iter().map(|v| NormalizedCoord::from_bits(*v)).collect()
 }
@@ -380,7 +393,8 @@ fn gen_history(rng: &mut Rng, fonts: &[Fnt], own: usize) -> Vec<Step> {
                 2 => Some(rng.range(6 * 64, 60 * 64) as f32 / 64.0),
                 _ => *rng.pick(&SIZES),
             };
-            let coords = random_coords(rng, f.axes, if f.axes == 0 { 0 } else { rng.usize(6) });
+            let style = if f.axes == 0 { 0 } else { rng.usize(6) };
+            let coords = random_coords(rng, f.axes, style);
             // mostly the interpreter: that is the instance kind with retained state
             let engine = if rng.chance(3, 5) { 0 } else { rng.usize(N_ENGINES) };
             let engine = if engine % N_ENGINES == 1 && f.nglyphs > 600 { 3 } else { engine };
@@ -529,7 +543,7 @@ fn eval_item(it: &Item) -> Report {
             }
         }
     }
-    let mut compare = |rep: &mut Report, kind: &str, gi: usize, got: &Obs, extra: Value| {
+    let compare = |rep: &mut Report, kind: &str, gi: usize, got: &Obs, extra: Value| {
         rep.evals += 1;
         rep.count(&format!("cmp:{}", kind), 1);
         if *got != base[gi] {
@@ -611,8 +625,18 @@ fn eval_item(it: &Item) -> Report {
                 rep.count(&format!("mem:align{}", align), 1);
                 rep.count(["mem:fill-zero", "mem:fill-aa", "mem:fill-random", "mem:dirty-reuse"][fill], 1);
                 rep.count(if extra == 0 { "mem:exact-size" } else { "mem:oversize" }, 1);
-                let _ = gid;
-                compare(&mut rep, "b-caller-memory", gi, &o, json!({"advertised": need, "extra": extra, "start_alignment_mod8": align, "prefill": ["zero", "0xAA", "random", "dirty"][fill]}));
+                rep.evals += 1;
+                rep.count("cmp:b-caller-memory", 1);
+                if o != base[gi] {
+                    // one signature per (font, glyph kind, mode, location class): the glyph id, size and buffer are in the detail
+                    let kind = glyph_kind(f, *gid);
+                    let mode_code = code.rsplit(';').next().unwrap_or("");
+                    let loc = if cfg.coords.iter().all(|c| *c == 0) { "default-location" } else { "non-default-location" };
+                    let mut d = describe_diff(&base[gi], &o);
+                    d["variant_info"] = json!({"advertised": need, "extra": extra, "start_alignment_mod8": align, "prefill": (["zero", "0xAA", "random", "dirty"][fill])});
+                    d["item"] = json!({"font": f.name, "k": it.k, "config": code, "gid": gid});
+                    rep.violation(format!("diff:b-caller-memory:{}:{}-glyph:{}:{}", f.name, kind, mode_code, loc), d);
+                }
             }
         }
     }
@@ -636,7 +660,8 @@ fn eval_item(it: &Item) -> Report {
             if let (Some(i), Some((s0, sum0))) = (&iz, &state0) {
                 rep.evals += 1;
                 rep.count("cmp:c-zero-location-state", 1);
-                if i.verif_state() != *s0 || inst_summary(i) != *sum0 {
+                // (the reported location()/size() of the instance are not part of the property: only the hinting state is)
+                if i.verif_state() != *s0 || i.verif_kind() != i0.as_ref().map(|x| x.verif_kind()).unwrap_or("") || i.is_enabled() != i0.as_ref().map(|x| x.is_enabled()).unwrap_or(false) {
                     rep.violation(format!("diff:c-zero-location-state:{}:{}", f.name, code), json!({"location": which, "default": sum0, "zeros": inst_summary(i)}));
                 }
             }
@@ -717,8 +742,12 @@ fn eval_item(it: &Item) -> Report {
                     let size = cfg.size();
                     s.spawn(move || {
                         let mut rng = Rng::derive(seed, "c12-thread", t as u64);
-                        let mut order: Vec<usize> = (0..glyphs.len()).collect();
-                        rng.shuffle(&mut order);
+                        let mut order: Vec<usize> = vec![];
+                        for _ in 0..3 {
+                            let mut o: Vec<usize> = (0..glyphs.len()).collect();
+                            rng.shuffle(&mut o);
+                            order.extend(o);
+                        }
                         let mut out = Vec::with_capacity(order.len());
                         let mut panics = vec![];
                         let sel = match shared {
@@ -738,8 +767,10 @@ fn eval_item(it: &Item) -> Report {
                             let o = if own_mem {
                                 let need = g.draw_memory_size(hinting);
                                 if mem.len() < need + 8 {
-                                    mem.resize(need + 8, 0xCC);
+                                    mem.resize(need + 8, 0);
                                 }
+                                // content dependence is (b)'s business: same content as library memory here
+                                mem.fill(0);
                                 let off = t % 8;
                                 draw_obs(g, &sel, Some(&mut mem[off..off + need]), &mut panics)
                             } else {
@@ -847,7 +878,7 @@ fn apply(ctx: &mut Ctx, rep: Report) {
 /// The k-th configuration of a font (deterministic; covers sizes, locations, modes cyclically).
 fn config_for(f: &Fnt, k: usize, seed: u64) -> Config {
     let mut rng = Rng::derive(seed, "c12-config", f.hash ^ k as u64);
-    let size = SIZES[k % SIZES.len()];
+    let size = SIZES[(k + k / 12) % SIZES.len()];
     let loc_style = if f.axes == 0 { 0 } else { (k / SIZES.len() + k / 2) % 6 };
     let coords = random_coords(&mut rng, f.axes, loc_style);
     // 1/6 unhinted FreeType, 1/12 unhinted HarfBuzz, rest hinted
@@ -939,10 +970,12 @@ pub fn run(ctx: &mut Ctx, _args: &Args) {
     let fonts = load_fonts(&corpus, &synth);
     ctx.extra.insert("fonts_with_outlines".into(), json!(fonts.len()));
     ctx.extra.insert("fonts_with_truetype_programs".into(), json!(fonts.iter().filter(|f| f.tt_programs).map(|f| f.name.clone()).collect::<Vec<_>>()));
-    let per_font = ctx.tier.pick(36usize, 288);
+    let per_font = ctx.tier.pick(540usize, 6000);
     let mut item = 0usize;
     for k in 0..per_font {
-        for fi in 0..fonts.len() {
+        for fi0 in 0..fonts.len() {
+            // rotate so that a shard does not always get the same fonts
+            let fi = (fi0 + k) % fonts.len();
             let mine = ctx.mine(item);
             item += 1;
             if !mine {
